@@ -60,6 +60,32 @@ def claim (claimed : List Nat) (x : ClaimIn) : Except Err (List Nat × Payout) :
       | none => .error .invalidValue
       | some d =>
         if !d.recipientOk then .error .invalidValue else
+        -- the converted amounts are arbitrary-precision integers (`math.NewIntFromBigInt`)
+        let amt : Int := (d.amount / 1000000000000 : Nat)
+        let tip : Int := (d.tip / 1000000000000 : Nat)
+        if tip > 0 then
+          -- amount.Sub(tip...) panics when the result would be negative
+          if tip > amt then .error .panic
+          else .ok (x.depositId :: claimed, { minted := amt.toNat, toClaimer := tip.toNat, toRecipient := (amt - tip).toNat })
+        else .ok (x.depositId :: claimed, { minted := amt.toNat, toClaimer := 0, toRecipient := amt.toNat })
+
+
+/-- `ClaimDeposit` before the fix of the `Int64()` conversion (kept for the counterexample theorem) -/
+def claimOld (claimed : List Nat) (x : ClaimIn) : Except Err (List Nat × Payout) :=
+  match x.agg with
+  | none => .error .noAggregate
+  | some agg =>
+    if agg.flagged then .error .flagged else
+    if claimed.contains x.depositId then .error .alreadyClaimed else
+    match x.threshold with
+    | none => .error .noCheckpoint
+    | some thr =>
+      if agg.power < thr then .error .insufficientPower else
+      if x.nowNs - (agg.tsMs : Int) * 1000000 < twelveHoursNs then .error .tooYoung else
+      match x.decoded with
+      | none => .error .invalidValue
+      | some d =>
+        if !d.recipientOk then .error .invalidValue else
         let amt := int64Of (d.amount / 1000000000000)
         let tip := int64Of (d.tip / 1000000000000)
         -- sdk.NewInt64Coin panics on a negative amount
